@@ -6,6 +6,7 @@ import Jap.Gen.LinksOrder
 import Jap.Gen.LinksSrc
 import Jap.Core.LinksHist
 import Jap.Lemmas.LinksHist
+import Jap.Lemmas.LinksStrip
 /-!
 # C15 — A linked argument always equals the function of its sources (links applied on parse)
 
@@ -30,9 +31,10 @@ A second way was repaired in /repo (ba94f2f, fixed finding F15x): `_initial_inpu
 with the sources of *previous* links only, so a link whose target is one of its own sources was accepted; the model's
 `addLink` now has the check, `C15_no_chains` includes it, and `C15_self_link_counterexample` keeps the pre-fix
 parser state as a regression example.
-`C15_not_in_dump` is proved for the key path of every target; for the *items* of a list of classes it is false
-(`C15_list_item_target_in_dump`, DESIGN §7 row 15c, open finding) and proved under the guard that the dest of the
-target does not hold a list.
+`C15_not_in_dump` is the full statement since 74a7bb8 (F70: `strip_link_target_keys` got the item branch, modelled by
+`stripItems` / `delInitTarget`): no place holds a target after the strip.  The strip as it was before
+(`stripLinkTargetKeysOld`, `dumpOld`) is kept as regression record with the former witness
+(`C15_list_item_target_in_dump`, DESIGN §7 row 15c).
 -/
 namespace Jap.Props.C15
 open Jap.NS Jap.Links
@@ -197,15 +199,17 @@ theorem C15_every_option_string_rejected (p0 p : Parser) (reqs : List LinkReq) (
 
 /-! ## dump and re-parse -/
 
-/-- the key path of every link target is absent from what `dump` serialises -/
+/-- FULL STATEMENT (since 74a7bb8, F70): after the strip NO place holds a link target -- neither the key path nor the
+    items of a list of classes held by the dest of an `init_args` target -/
 theorem C15_not_in_dump (p0 p : Parser) (reqs : List LinkReq) (h : Accepted p0 reqs p) (cfg : KV) :
-    ∀ l ∈ p.links, getK l.target (dump p cfg) = .none :=
-  getK_strip_target p h.inv cfg
+    ∀ l ∈ p.links, targetValues l (dump p cfg) = [] ∧ getK l.target (dump p cfg) = .none :=
+  fun l hl => ⟨(gone_strip p h.inv cfg l hl).targetValues, (gone_strip p h.inv cfg l hl).1⟩
 
-/-- no place holds the target after the strip, unless the dest of an `init_args` target holds a list -/
+/-- regression record (the strip BEFORE F70, `dumpOld`): no place held the target unless the dest of an `init_args`
+    target held a list -/
 theorem C15_not_in_dump_partial (p0 p : Parser) (reqs : List LinkReq) (h : Accepted p0 reqs p) (cfg : KV) :
     ∀ l ∈ p.links, (∀ n, l.kind = .initArg n → ∀ items, getK (l.target.take n) cfg ≠ some (.lst items)) →
-      targetValues l (dump p cfg) = [] :=
+      targetValues l (dumpOld p cfg) = [] :=
   targetValues_strip p h.inv cfg
 
 /-- Re-parsing a dump: let `load` stand for reading the dump back and merging it with the defaults (C01, C05, C14);
@@ -243,7 +247,7 @@ theorem C15_reparse_reconstructs (E : Env) (p0 p : Parser) (reqs : List LinkReq)
 /-- `dump` removes nothing but the targets: every key that diverges from them is as in the configuration -/
 theorem C15_dump_keeps_the_rest (p0 p : Parser) (reqs : List LinkReq) (h : Accepted p0 reqs p) (cfg : KV) (k : Key)
     (hk : ∀ l ∈ p.links, diverges l.target k = true) : getK k (dump p cfg) = getK k cfg :=
-  getK_strip_frame p h.inv cfg k hk
+  getK_stripN_frame p h.inv cfg k hk
 
 /-- … so that, in the model, the stripped configuration itself (`load` = identity: no class defaults to restore)
     re-parses: the pass succeeds and every plain target gets back exactly the value it had -/
@@ -255,7 +259,7 @@ theorem C15_reparse_plain (E : Env) (p0 p : Parser) (reqs : List LinkReq) (h : A
       (∀ l ∈ p.links, l.kind = .plain → (∀ s ∈ l.sources, s.sub = false) →
         getK l.target cfg2 = getK l.target cfg) := by
   obtain ⟨cfg2, h2, hf, hv, _⟩ := C15_reparse_reconstructs E p0 p reqs h hn inputs cfg hp id
-    (fun k hk => getK_strip_frame p h.inv cfg k hk)
+    (fun k hk => getK_stripN_frame p h.inv cfg k hk)
   refine ⟨cfg2, h2, hf, fun l hl hk hsub => ?_⟩
   obtain ⟨args, hargs⟩ := C15_sources_present E p0 p reqs h hn inputs cfg hp l hl hsub
   obtain ⟨_, _, _, _, hpl⟩ := hv l hl args hargs
@@ -450,16 +454,21 @@ def cfgList : KV :=
 def lOpts : Link := ⟨[⟨key "a", false, false⟩], key3 "opts" "init_args" "dim", .none, .initArg 1⟩
 def lOpt : Link := ⟨[⟨key "a", false, false⟩], key3 "opt" "init_args" "dim", some 2, .initArg 1⟩
 
-/-- the pass sets `dim` in the item that has it (and in `opt`, overriding the supplied 33); the strip removes
-    `opt.init_args.dim` (and the then empty `opt.init_args`) but leaves the items of `opts` as they are: the full
-    statement `targetValues l (dump p cfg) = []` fails for the list target -/
+/-- (fixed finding 15c / F70; regression record) the pass sets `dim` in the item that has it (and in `opt`, overriding the
+    supplied 33); the strip removes `opt.init_args.dim` (and the then empty `opt.init_args`).  The strip as it was
+    BEFORE 74a7bb8 (`dumpOld`) left the items of `opts` as they were: the full statement failed for the list target.
+    The strip as it is now (`dump`) empties both. -/
 theorem C15_list_item_target_in_dump :
     addLinks p0List reqsList = .ok (parserOf p0List reqsList) ∧ (parserOf p0List reqsList).links = [lOpts, lOpt] ∧
     ∃ cfg, parseCommon Ew (parserOf p0List reqsList) cfgList = .ok cfg ∧
-      targetValues lOpts cfg = [.atom 5] ∧ targetValues lOpts (dump (parserOf p0List reqsList) cfg) = [.atom 5] ∧
-      targetValues lOpt cfg = [.atom 10] ∧ targetValues lOpt (dump (parserOf p0List reqsList) cfg) = [] ∧
-      getK (key2 "opt" "init_args") (dump (parserOf p0List reqsList) cfg) = .none :=
-  ⟨rfl, rfl, _, rfl, rfl, rfl, rfl, rfl, rfl⟩
+      targetValues lOpts cfg = [.atom 5] ∧ targetValues lOpts (dumpOld (parserOf p0List reqsList) cfg) = [.atom 5] ∧
+      targetValues lOpt cfg = [.atom 10] ∧ targetValues lOpt (dumpOld (parserOf p0List reqsList) cfg) = [] ∧
+      getK (key2 "opt" "init_args") (dumpOld (parserOf p0List reqsList) cfg) = .none ∧
+      targetValues lOpts (dump (parserOf p0List reqsList) cfg) = [] ∧ targetValues lOpt (dump (parserOf p0List reqsList) cfg) = [] ∧
+      getK (key "opts") (dump (parserOf p0List reqsList) cfg) =
+        some (.lst [.ns [(⟨false, "class_path"⟩, .atom 1), (⟨false, "init_args"⟩, .ns [(⟨false, "k"⟩, .atom 1)])],
+                    .ns [(⟨false, "class_path"⟩, .atom 2), (⟨false, "init_args"⟩, .ns [(⟨false, "k"⟩, .atom 7)])]]) :=
+  ⟨rfl, rfl, _, rfl, rfl, rfl, rfl, rfl, rfl, rfl, rfl, rfl⟩
 
 /-! ### non-vacuity -/
 
@@ -730,7 +739,7 @@ example : Fresh p0Hist ∧
 
 /-! ## the open findings as decidable classes: outside the class the full statement holds -/
 
-/-- the class of `C15-list-item-target-in-dump`, exactly: the dest of an `init_args` target holds a LIST in which some
+/-- the class of the repaired finding `C15-list-item-target-in-dump` (F70), exactly: the dest of an `init_args` target holds a LIST in which some
     namespace item has the parameter -/
 def listHeld (l : Link) (cfg : KV) : Bool :=
   match l.kind with
@@ -740,18 +749,18 @@ def listHeld (l : Link) (cfg : KV) : Bool :=
     | some (.lst items) => anyHas (l.target.drop n) items
     | _ => false
 
-/-- Outside that class the full statement of "the target does not appear in dumps" holds: no place holds the target
-    after the strip (also when the dest holds a list, none of whose items has the parameter).  Inside the class it
-    fails: `C15_list_item_target_in_dump`. -/
+/-- regression record (the strip BEFORE F70, `dumpOld`): outside that class no place held the target after the strip
+    (also when the dest held a list none of whose items had the parameter); inside the class it failed
+    (`C15_list_item_target_in_dump`).  The strip as it is now needs no such guard: `C15_not_in_dump`. -/
 theorem C15_not_in_dump_exact (p0 p : Parser) (reqs : List LinkReq) (h : Accepted p0 reqs p) (cfg : KV) :
-    ∀ l ∈ p.links, listHeld l cfg = false → targetValues l (dump p cfg) = [] := by
+    ∀ l ∈ p.links, listHeld l cfg = false → targetValues l (dumpOld p cfg) = [] := by
   intro l hl hh
   have hgone := getK_strip_target p h.inv cfg l hl
-  unfold dump
+  unfold dumpOld
   cases hk : l.kind with
   | plain => rw [targetValues_plain _ _ hk, hgone]; rfl
   | initArg n =>
-    cases hd : getK (l.target.take n) (stripLinkTargetKeys p cfg) with
+    cases hd : getK (l.target.take n) (stripLinkTargetKeysOld p cfg) with
     | none => rw [targetValues_path l n _ hk (by intro items hg; rw [hd] at hg; cases hg), hgone]; rfl
     | some v =>
       by_cases hl' : ∃ items, v = .lst items
@@ -910,7 +919,7 @@ theorem tie_set_target_value : Jap.Gen.LinksSrc.setTargetValue = [
   "        return",
   "  cfg[target_key] = value"] := rfl
 
-/-- `ActionLink.strip_link_target_keys` as transcribed by `delTargetKey`, `stripKeys` / `stripLinkTargetKeys` and the recursion of `stripTree` -/
+/-- `ActionLink.strip_link_target_keys` as transcribed by `delTargetKey`, `plainKeys`, `initKeys` / `delInitTarget` with the item branch `stripItems` / `stripItem` (F70), `stripLinkTargetKeys` and the recursion of `stripTree` -/
 theorem tie_strip_link_target_keys : Jap.Gen.LinksSrc.stripLinkTargetKeys = [
   "def strip_link_target_keys(parser, cfg):",
   "  def del_target_key(target_key):",
@@ -925,6 +934,13 @@ theorem tie_strip_link_target_keys : Jap.Gen.LinksSrc.stripLinkTargetKeys = [
   "  for action in [a for a in parser._actions if isinstance(a, ActionTypeHint) and hasattr(a, 'sub_add_kwargs')]:",
   "    for key in action.sub_add_kwargs.get('linked_targets', []):",
   "      del_target_key(f'{action.dest}.init_args.{key}')",
+  "      parent = cfg.get(action.dest)",
+  "      if isinstance(parent, list):",
+  "        for item in parent:",
+  "          if isinstance(item, Namespace):",
+  "            item.pop(f'init_args.{key}', None)",
+  "            if 'init_args' in item and (not item['init_args']):",
+  "              del item['init_args']",
   "  with _ActionSubCommands.not_single_subcommand():",
   "    subcommands, subparsers = _ActionSubCommands.get_subcommands(parser, cfg)",
   "  if subcommands is not None:",
